@@ -98,6 +98,49 @@ FormatStr(xs, s) ==
          [] OTHER -> [ok |-> pad % 2 = 0, pre |-> pad \div 2, post |-> pad \div 2]
 StrSpecText(s) == s.fill \o s.align \o (IF s.width = 0 THEN "" ELSE NatStr(s.width))
 
+\* ---- float format specifiers ------------------------------------------------------------------
+\* format(x: float, f) in the fixed-point modes ("" = "f", and "%" = 100 * x in "f" followed by "%"):
+\* the magnitude is rounded to `precision` decimals (6 when absent), the integer digits OF THE ROUNDED
+\* number are grouped, then sign and padding apply as for integers.  Floats are dyadic rationals
+\* num / den (den a power of two), so that the decimal expansion is exact; a rounding tie (which way
+\* it goes is not documented) and a negative number that rounds to zero are left open.
+FSpecs ==
+    [fill : {"", "*"}, align : {"", "<", "=", "^"}, sign : {"", "+"}, zero : BOOLEAN,
+     width : {0, 12}, group : {"", "_", ","}, prec : {-1, 0, 1, 3}, fmode : {"", "f", "%"}]
+FWellFormed(s) == (s.fill # "" => s.align # "") /\ (s.zero => s.fill = "" /\ s.align = "")
+FloatValues == {<<FALSE, 0, 1>>, <<FALSE, 1, 8>>, <<TRUE, 5, 4>>, <<FALSE, 7999, 8>>, <<FALSE, 31999, 32>>, <<TRUE, 31999, 32>>,
+                <<FALSE, 3999, 4>>, <<FALSE, 1000, 1>>, <<FALSE, 2469135, 2>>, <<TRUE, 2469135, 2>>, <<FALSE, 319999, 32>>,
+                <<FALSE, 2559, 256>>, <<TRUE, 2559, 256>>, <<FALSE, 1279, 128>>}
+Pow10(p) == CASE p = 0 -> 1 [] p = 1 -> 10 [] p = 3 -> 1000 [] p = 6 -> 1000000
+RECURSIVE ZeroPadNat(_, _)
+ZeroPadNat(n, w) == IF w = 0 THEN "" ELSE ZeroPadNat(n \div 10, w - 1) \o Digit(n % 10)
+FormatFloat(x, s) ==
+    LET neg == x[1]
+        num == IF s.fmode = "%" THEN x[2] * 100 ELSE x[2]
+        den == x[3]
+        p == IF s.prec = -1 THEN 6 ELSE s.prec
+        whole0 == num \div den
+        scaled == (num % den) * Pow10(p)
+        q0 == scaled \div den
+        r2 == scaled % den
+        tie == 2 * r2 = den
+        q1 == IF 2 * r2 > den THEN q0 + 1 ELSE q0
+        whole == IF q1 = Pow10(p) THEN whole0 + 1 ELSE whole0
+        frac == IF q1 = Pow10(p) THEN 0 ELSE q1
+        digits == (IF s.group # "" THEN Group3(whole, s.group) ELSE NatStr(whole))
+                  \o (IF p = 0 THEN "" ELSE "." \o ZeroPadNat(frac, p)) \o (IF s.fmode = "%" THEN "%" ELSE "")
+        sgn == IF neg THEN "-" ELSE IF s.sign = "+" THEN "+" ELSE ""
+        fillc == IF s.zero THEN "0" ELSE IF s.fill = "" THEN " " ELSE s.fill
+        al == IF s.zero THEN "=" ELSE IF s.align = "" THEN ">" ELSE s.align
+        pad == IF s.width > Len(sgn) + Len(digits) THEN s.width - Len(sgn) - Len(digits) ELSE 0
+        open == tie \/ (neg /\ whole = 0 /\ frac = 0)
+    IN CASE al = "<" -> [ok |-> ~open, v |-> sgn \o digits \o RepStr(fillc, pad)]
+         [] al = ">" -> [ok |-> ~open, v |-> RepStr(fillc, pad) \o sgn \o digits]
+         [] al = "=" -> [ok |-> ~open, v |-> sgn \o RepStr(fillc, pad) \o digits]
+         [] OTHER -> [ok |-> ~open /\ pad % 2 = 0, v |-> RepStr(fillc, pad \div 2) \o sgn \o digits \o RepStr(fillc, pad \div 2)]
+FSpecText(s) == s.fill \o s.align \o s.sign \o (IF s.zero THEN "0" ELSE "") \o (IF s.width = 0 THEN "" ELSE NatStr(s.width))
+                \o s.group \o (IF s.prec = -1 THEN "" ELSE "." \o NatStr(s.prec)) \o s.fmode
+
 \* ---- sorting ------------------------------------------------------------------------------
 \* elements are (key, payload); the comparator looks at the key only: ties keep their order
 RECURSIVE InsertStable(_, _), StableSort(_)
@@ -114,6 +157,8 @@ Init ==
        /\ ty = "" /\ a = 0 /\ b = 0 /\ sortin = <<>>
     \/ /\ mode = "sformat" /\ fspec \in {s \in StrSpecs : StrWellFormed(s)} /\ fx \in StrFormatValues
        /\ ty = "" /\ a = 0 /\ b = 0 /\ sortin = <<>>
+    \/ /\ mode = "fformat" /\ fspec \in {s \in FSpecs : FWellFormed(s)} /\ fx \in FloatValues
+       /\ ty = "" /\ a = 0 /\ b = 0 /\ sortin = <<>>
 Next == UNCHANGED ovars
 
 Emit ==
@@ -121,6 +166,9 @@ Emit ==
       THEN PrintT(<<"CASE", ToJson([mode |-> "pair", ty |-> ty, a |-> Proj(a), b |-> Proj(b), eq |-> VEq(a, b),
                                     cmp |-> IF ty \in Ordered THEN VCmp(a, b) ELSE 99,
                                     text |-> IF ty \in ExactText THEN VStr(a) ELSE "?"])>>)
+    ELSE IF mode = "fformat"
+      THEN LET f == FormatFloat(fx, fspec)
+           IN f.ok => PrintT(<<"CASE", ToJson([mode |-> "fformat", neg |-> fx[1], num |-> fx[2], den |-> fx[3], spec |-> FSpecText(fspec), v |-> f.v])>>)
     ELSE IF mode = "sformat"
       THEN LET f == FormatStr(fx, fspec)
            IN f.ok => PrintT(<<"CASE", ToJson([mode |-> "sformat", x |-> fx, spec |-> StrSpecText(fspec), pre |-> f.pre, post |-> f.post,
@@ -139,5 +187,6 @@ PrefixIsSmaller ==
     (mode = "pair" /\ ty \in {"seq_int", "seq_str"} /\ Len(a.v) < Len(b.v) /\ SubSeq(b.v, 1, Len(a.v)) = a.v) => VCmp(a, b) = -1
 StrWidthReached == (mode = "sformat" /\ FormatStr(fx, fspec).ok) =>
     LET f == FormatStr(fx, fspec) IN f.pre + Len(fx) + f.post >= fspec.width /\ (fspec.width <= Len(fx) => f.pre + f.post = 0)
+FloatWidthReached == (mode = "fformat" /\ FormatFloat(fx, fspec).ok) => Len(FormatFloat(fx, fspec).v) >= fspec.width
 EmptySpecIsToStr == (mode = "format" /\ SpecText(fspec) = "") => FormatInt(fx, fspec).v = IntStr(fx)
 =============================================================================
